@@ -155,8 +155,9 @@ func checkLabelProg(pid string, p *Prog) Verdict {
 	v := Verdict{Key: p.Source()}
 	src := p.Source()
 	r := asm.Assemble(src)
-	if asm.Diagnosed(r, asm.Baseline(p.Header())) {
-		v.Skip = "diagnosed: " + asm.DiagClass(r, asm.Baseline(p.Header()))
+	// the DW/DB truncation warning is by-spec (low bits are emitted; values are compared modulo the field width)
+	if d, cls := diagnosedC05(r, asm.Baseline(p.Header())); d {
+		v.Skip = "diagnosed: " + cls
 		return v
 	}
 	out := r.Out
@@ -283,8 +284,10 @@ func checkLabelProg(pid string, p *Prog) Verdict {
 				return fail("decode", "branch", "%q at %#x decodes as %q", it.Text, o, x86asm.IntelSyntax(inst, 0, nil))
 			}
 			target := org + int64(o) + int64(inst.Len) + int64(rel)
-			if mode == 16 {
+			if inst.DataSize == 16 {
+				// IP wraps at 64 KiB: addresses are compared modulo 2^16
 				target &= 0xffff
+				want &= 0xffff
 			}
 			nrefs++
 			if target != want {
@@ -341,6 +344,9 @@ var propC03 = &Prop[Prog]{
 	Gen: func(t *rapid.T) Prog {
 		mode := rapid.SampledFrom([]int{0, 16, 32}).Draw(t, "mode")
 		org := rapid.SampledFrom(orgSet).Draw(t, "org")
+		if mode == 32 && rapid.IntRange(0, 3).Draw(t, "bigorg") == 0 {
+			org = rapid.SampledFrom([]int64{0x10000, 0x280000, 0x12345670}).Draw(t, "bigorgv") // label values above 64 KiB
+		}
 		return genLabelProg(t, mode, org, true)
 	},
 	Check: func(p Prog) Verdict { return checkLabelProg("C03", &p) },
